@@ -523,6 +523,9 @@ func mergeMapRule(e *Env, name string) bool {
 }
 
 func mergeServicesRule(e *Env, name string) bool {
+	if decided, ok := mergeServicesSSA(e, name); decided {
+		return ok
+	}
 	r := e.R
 	fd, pk := e.P.Decl(inputRel, name)
 	key := inputRel + "." + name
